@@ -118,3 +118,30 @@ package ordered
 //@           0 <= y && y < len(m.items) && !m.items[y].deleted &&
 //@           m.items[y].Key == old(m.items[x].Key) && m.items[y].Value == old(m.items[x].Value) &&
 //@           live(m.items, y) == old(live(m.items, x)) - (x > old(m.index[k]) ? 1 : 0)
+
+//@ define teq(s, t) := s.Key == t.Key && veqAny(box(V, s.Value), box(V, t.Value))
+//@ define same(a, b) := len(a.index) == len(b.index) &&
+//@     (forall x int, y int :: {a.items[x], b.items[y]}
+//@        0 <= x && x < len(a.items) && 0 <= y && y < len(b.items) && !a.items[x].deleted && !b.items[y].deleted &&
+//@        live(a.items, x) == live(b.items, y) ==> teq(a.items[x], b.items[y]))
+//@ define eqinv(a, b, i, j) := 0 <= i && i <= len(a.items) && 0 <= j && j <= len(b.items) &&
+//@     live(a.items, i) == live(b.items, j) &&
+//@     (forall x int, y int :: {a.items[x], b.items[y]}
+//@        0 <= x && x < i && 0 <= y && y < j && !a.items[x].deleted && !b.items[y].deleted &&
+//@        live(a.items, x) == live(b.items, y) ==> teq(a.items[x], b.items[y]))
+
+//@ func Equal
+//@   requires (a != nil ==> wf(a)) && (b != nil ==> wf(b))
+//@   assigns nothing
+//@   ensures [nil]  (a == nil || b == nil) ==> ret == (a == b)
+//@   ensures [spec] a != nil && b != nil ==> (ret <==> same(a, b))
+//@   loop 0
+//@     assigns nothing
+//@     invariant [lockstep] eqinv(a, b, i, j)
+//@     decreases (len(a.items) - i) + (len(b.items) - j)
+//@   loop 1
+//@     invariant [lockstep] eqinv(a, b, i, j)
+//@     decreases len(a.items) - i
+//@   loop 2
+//@     invariant [lockstep] eqinv(a, b, i, j)
+//@     decreases len(b.items) - j
